@@ -582,3 +582,227 @@ Proof.
       * cbn [header_of]. destruct (first_is LF l); [reflexivity|]. cbn [drop_parents].
         now rewrite (nokey_nopre k_parent l Hl eq_refl eq_refl Hk : starts_with (str "parent "%string) l = false).
 Qed.
+
+(* ---------------------------------------------------------------- author / committer *)
+Definition pick (k : bytes) (rest : list bytes) : option bytes * list bytes :=
+  match rest with
+  | l :: r => if key_is k l then (Some l, r) else (None, rest)
+  | [] => (None, [])
+  end.
+
+(* what go-git decoded from an optional header line, and what git's scan kept *)
+Definition person_rel (o : option bytes) (go : ident) (go0 : ident) (gv : option bytes) : Prop :=
+  match o with
+  | Some l => go = decode_ident (value_of l) /\
+              (value_of l <> [] -> gv = Some (value_of l) /\ no_lf (value_of l) = true)
+  | None => go = go0 /\ gv = None
+  end.
+
+Lemma committer_stage rs c2 se c ga : Forall line_ok rs -> all_but_last_nl rs = true ->
+  crun SCommitter c2 se rs = Ok c ->
+  existsb stray (snd (pick k_committer (header_of rs))) = false ->
+  c_author c = c_author c2 /\
+  exists gc, fst (git_scan_header rs ga None) = (ga, gc) /\
+    person_rel (fst (pick k_committer (header_of rs))) (c_committer c) (c_committer c2) gc.
+Proof.
+  intros Hok Ha Hrun Hst.
+  split; [destruct (crun_keep _ _ _ _ _ Hrun) as (_ & _ & K & _); apply K; cbn; lia|].
+  destruct rs as [|l r].
+  - cbn [crun cfinish] in Hrun. inversion Hrun; subst c. exists None. now split.
+  - inversion Hok as [|x0 y0 Hl Hr]. subst x0 y0. destruct (abl_tail _ _ Ha) as [Har _].
+    destruct (key_is k_committer l) eqn:Hk.
+    + assert (Hb : is_blank l = false) by (apply (key_nonblank _ _ Hk); discriminate).
+      cbn [header_of] in *. rewrite (first_is_lf_blank _ Hl), Hb in *. cbn [pick] in *. rewrite Hk in *. cbn [fst snd] in *.
+      pose proof (crun_after SCommitter c2 se l r _ se SHeaders c Ha I (committer_key_step c2 se _ l Hk) Hrun) as Hrun'.
+      destruct (crun_keep _ _ _ _ _ Hrun') as (_ & _ & _ & K). rewrite K by (cbn; lia). cbn [set_committer c_committer].
+      exists (if starts_with (str "committer "%string) l then Some (value_of l) else None).
+      split.
+      * cbn [git_scan_header]. rewrite (first_is_lf_blank _ Hl), Hb.
+        rewrite (key_excl k_committer k_author l Hl eq_refl eq_refl Hk ltac:(discriminate) : starts_with (str "author "%string) l = false).
+        destruct (starts_with (str "committer "%string) l) eqn:Esw.
+        -- destruct (pre_key k_committer l Hl eq_refl eq_refl Esw) as [_ [V _]].
+           change (List.length k_committer + 1)%nat with 10%nat in V. rewrite <- V. now apply scan_none.
+        -- now apply scan_none.
+      * unfold person_rel. split; [reflexivity|]. intros Hv.
+        destruct (key_val k_committer l Hl eq_refl eq_refl Hk Hv) as [Hsw [_ Hn]].
+        change (k_committer ++ [SPC]) with (str "committer "%string) in Hsw. rewrite Hsw. now split.
+    + assert (Hpk : pick k_committer (header_of (l :: r)) = (None, header_of (l :: r))).
+      { cbn [header_of]. destruct (first_is LF l); [reflexivity|]. cbn [pick]. now rewrite Hk. }
+      rewrite Hpk in *. cbn [fst snd] in *.
+      rewrite crun_cons, (committer_step_other _ _ _ _ Hk), <- crun_cons in Hrun.
+      destruct (crun_keep _ _ _ _ _ Hrun) as (_ & _ & _ & K).
+      exists None. split; [now apply scan_none|]. split; [apply K; cbn; lia|reflexivity].
+Qed.
+
+Lemma author_stage rs c1 se c : Forall line_ok rs -> all_but_last_nl rs = true ->
+  crun SAuthor c1 se rs = Ok c ->
+  let pa := pick k_author (header_of rs) in
+  let pc := pick k_committer (snd pa) in
+  existsb stray (snd pc) = false ->
+  exists ga gc, fst (git_scan_header rs None None) = (ga, gc) /\
+    person_rel (fst pa) (c_author c) (c_author c1) ga /\
+    person_rel (fst pc) (c_committer c) (c_committer c1) gc.
+Proof.
+  intros Hok Ha Hrun pa pc Hst.
+  assert (Other : pa = (None, header_of rs) -> crun SCommitter c1 se rs = Ok c ->
+    exists ga gc, fst (git_scan_header rs None None) = (ga, gc) /\
+      person_rel (fst pa) (c_author c) (c_author c1) ga /\ person_rel (fst pc) (c_committer c) (c_committer c1) gc).
+  { intros Epa Hrun'. unfold pc in *. rewrite Epa in *. cbn [fst snd] in *.
+    destruct (committer_stage _ _ _ _ None Hok Ha Hrun' Hst) as [A [gc [G P]]].
+    exists None, gc. split; [exact G|]. split; [now split|exact P]. }
+  destruct rs as [|l r]; [apply Other; [reflexivity|exact Hrun]|].
+  inversion Hok as [|x0 y0 Hl Hr]. subst x0 y0. destruct (abl_tail _ _ Ha) as [Har _].
+  destruct (key_is k_author l) eqn:Hk.
+  - clear Other.
+    assert (Hb : is_blank l = false) by (apply (key_nonblank _ _ Hk); discriminate).
+    assert (Epa : pa = (Some l, header_of r)).
+    { unfold pa. cbn [header_of]. rewrite (first_is_lf_blank _ Hl), Hb. cbn [pick]. now rewrite Hk. }
+    unfold pc in *. rewrite Epa in *. cbn [fst snd] in *.
+    pose proof (crun_after SAuthor c1 se l r _ se SCommitter c Ha I (author_key_step c1 se _ l Hk) Hrun) as Hrun'.
+    set (ga := if starts_with (str "author "%string) l then Some (value_of l) else None).
+    destruct (committer_stage _ _ _ _ ga Hr Har Hrun' Hst) as [A [gc [G P]]].
+    exists ga, gc. split; [|split].
+    + cbn [git_scan_header]. rewrite (first_is_lf_blank _ Hl), Hb. unfold ga in *.
+      destruct (starts_with (str "author "%string) l) eqn:Esw.
+      * destruct (pre_key k_author l Hl eq_refl eq_refl Esw) as [_ [V _]].
+        change (List.length k_author + 1)%nat with 7%nat in V. rewrite <- V. exact G.
+      * rewrite (key_excl k_author k_committer l Hl eq_refl eq_refl Hk ltac:(discriminate) : starts_with (str "committer "%string) l = false).
+        exact G.
+    + unfold person_rel. rewrite A. split; [reflexivity|]. intros Hv.
+      destruct (key_val k_author l Hl eq_refl eq_refl Hk Hv) as [Hsw [_ Hn]].
+      change (k_author ++ [SPC]) with (str "author "%string) in Hsw. unfold ga. rewrite Hsw. now split.
+    + exact P.
+  - apply Other.
+    + unfold pa. cbn [header_of]. destruct (first_is LF l); [reflexivity|]. cbn [pick]. now rewrite Hk.
+    + now rewrite crun_cons, (author_step_other _ _ _ _ Hk), <- crun_cons in Hrun.
+Qed.
+
+(* the clauses of ObjWf.commit_agree_of, read off the header lines *)
+Definition pok (o : option bytes) : bool := match o with Some l => person_ok (value_of l) | None => true end.
+Definition dok (o : option bytes) : bool := match o with Some l => date_ok (value_of l) | None => true end.
+
+Lemma agree_unfold raw :
+  commit_agree_of raw =
+  let hdr := header_of (split_lines raw) in
+  let pa := pick k_author (drop_parents (tl hdr)) in
+  let pc := pick k_committer (snd pa) in
+  mk_cagree (pblock_ok (tl hdr) (List.length raw - 46)%nat) (negb (existsb stray (snd pc)))
+            (pok (fst pa)) (dok (fst pa)) (pok (fst pc)) (dok (fst pc))
+            (negb (existsb (fun l => beqb (trim_right LF l) k_encoding) hdr)).
+Proof.
+  unfold commit_agree_of. cbv zeta. unfold pick.
+  destruct (drop_parents (tl (header_of (split_lines raw)))) as [|l r]; [reflexivity|].
+  destruct (key_is k_author l).
+  - cbn [fst snd]. destruct r as [|l2 r2]; [reflexivity|]. destruct (key_is k_committer l2); reflexivity.
+  - cbn [fst snd]. destruct (key_is k_committer l); reflexivity.
+Qed.
+
+(* go-git's fields of an ident against git's, given the clauses *)
+Lemma person_final o go gv : person_rel o go ident_zero gv -> pok o = true -> dok o = true ->
+  (id_name go, id_email go, go_date go) = git_person gv.
+Proof.
+  unfold person_rel, pok, dok. destruct o as [l|].
+  - intros [-> Hv] Hp Hd.
+    assert (Hne : value_of l <> []) by (intros E; rewrite E in Hp; discriminate Hp).
+    destruct (Hv Hne) as [-> Hn]. symmetry. exact (ident_matches_git _ Hn Hp Hd).
+  - intros [-> ->] _ _. reflexivity.
+Qed.
+
+(* ---------------------------------------------------------------- what git_log_fields = GOk says *)
+Lemma GOk_inj {A} (x y : A) : GOk x = GOk y -> x = y.
+Proof. intros H. now injection H. Qed.
+
+Lemma git_log_fields_inv raw g : git_log_fields raw = GOk g ->
+  (46 < List.length raw)%nat /\ starts_with (str "tree "%string) raw = true /\ nth 45 raw 0 = LF /\
+  all_hex (firstn 40 (skipn 5 raw)) = true /\
+  gl_tree g = lower_hex (firstn 40 (skipn 5 raw)) /\
+  git_parents (List.length raw) (skipn 46 raw) = Some (gl_parents g) /\
+  (gl_an g, gl_ae g, gl_ad g) = git_person (fst (fst (git_scan_header (split_lines raw) None None))) /\
+  (gl_cn g, gl_ce g, gl_cd g) = git_person (snd (fst (git_scan_header (split_lines raw) None None))) /\
+  gl_enc g = match git_find_header k_encoding (split_lines raw) with Some e => e | None => [] end.
+Proof.
+  unfold git_log_fields. intros Hg.
+  destruct (has_nul raw); [discriminate|].
+  destruct (Nat.ltb 46 (List.length raw)) eqn:E1; [|discriminate]. cbn [negb] in Hg.
+  destruct (starts_with (str "tree "%string) raw) eqn:E2; [|discriminate]. cbn [negb] in Hg.
+  destruct (nth 45 raw 0 =? LF) eqn:E3; [|discriminate]. cbn [negb] in Hg.
+  destruct (all_hex (firstn 40 (skipn 5 raw))) eqn:E4; [|discriminate]. cbn [negb] in Hg.
+  destruct (git_parents (List.length raw) (skipn 46 raw)) as [ps|]; [|discriminate].
+  destruct (git_scan_header (split_lines raw) None None) as [[a0 c0] body]. cbn [fst snd].
+  destruct (git_person a0) as [[an ae] ad]. destruct (git_person c0) as [[cn ce] cd].
+  apply GOk_inj in Hg. subst g. cbn [gl_tree gl_parents gl_an gl_ae gl_ad gl_cn gl_ce gl_cd gl_enc fst snd].
+  apply Nat.ltb_lt in E1. apply N.eqb_eq in E3. repeat split; try assumption; reflexivity.
+Qed.
+
+Lemma raw_lines raw : (46 < List.length raw)%nat -> starts_with (str "tree "%string) raw = true -> nth 45 raw 0 = LF ->
+  raw = (str "tree "%string ++ firstn 40 (skipn 5 raw)) ++ LF :: skipn 46 raw /\
+  List.length (firstn 40 (skipn 5 raw)) = 40%nat.
+Proof.
+  intros Hlen Hsw H45. split.
+  - pose proof (nth_split_eq 0 45 raw ltac:(lia)) as E. rewrite H45 in E.
+    change 45%nat with (5 + 40)%nat in E at 1. rewrite firstn_add in E.
+    rewrite (starts_with_firstn _ _ Hsw : firstn 5 raw = str "tree "%string) in E. exact E.
+  - rewrite firstn_length, skipn_length. lia.
+Qed.
+
+Theorem commit_fields_match_git : forall raw c g,
+  decode_commit raw = Ok c -> git_log_fields raw = GOk g ->
+  let a := commit_agree_of raw in
+  hex_encode (c_tree c) = gl_tree g /\
+  (ca_parents a = true -> map hex_encode (c_parents c) = gl_parents g) /\
+  (ca_position a = true -> ca_aperson a = true -> ca_adate a = true ->
+     (id_name (c_author c), id_email (c_author c), go_date (c_author c)) = (gl_an g, gl_ae g, gl_ad g)) /\
+  (ca_position a = true -> ca_cperson a = true -> ca_cdate a = true ->
+     (id_name (c_committer c), id_email (c_committer c), go_date (c_committer c)) = (gl_cn g, gl_ce g, gl_cd g)) /\
+  (ca_encoding a = true -> enc_agrees (c_enc c) (gl_enc g)) /\
+  (forall m, gl_body g = Some m -> c_msg c = m).
+Proof.
+  intros raw c g Hd Hg a.
+  destruct (git_log_fields_inv _ _ Hg) as (Hlen & Hsw & H45 & Hhex & Gt & Gp & Ga & Gc & Ge).
+  destruct (raw_lines _ Hlen Hsw H45) as [Hraw Hthl].
+  set (th := firstn 40 (skipn 5 raw)) in *. set (rest := skipn 46 raw) in *.
+  assert (Hnth : no_lf (str "tree "%string ++ th) = true) by (rewrite no_lf_app, (all_hex_no_lf _ Hhex); reflexivity).
+  set (l0 := (str "tree "%string ++ th) ++ [LF]).
+  assert (Hsl : split_lines raw = l0 :: split_lines rest) by (rewrite Hraw at 1; exact (split_lines_line _ _ Hnth)).
+  pose proof (split_lines_ok rest) as Hok. pose proof (split_lines_abl rest) as Habl.
+  pose proof (concat_split_lines rest) as Hcat.
+  assert (Hrl : List.length rest = (List.length raw - 46)%nat) by (unfold rest; apply skipn_length).
+  set (ls := split_lines rest) in *.
+  (* go-git: the tree line, then the scanner on the remaining lines *)
+  assert (Hgo : exists h, hex_decode th = Some h /\ crun SParents (commit_init h) false ls = Ok c).
+  { unfold decode_commit in Hd. rewrite Hsl in Hd. cbn [decode_commit_lines] in Hd.
+    change (is_blank l0) with false in Hd.
+    assert (Esh : split_header l0 = (k_tree, th)).
+    { change l0 with (k_tree ++ SPC :: th ++ [LF]). apply split_header_kv; [reflexivity|reflexivity|exact (all_hex_no_lf _ Hhex)]. }
+    rewrite Esh in Hd. change (negb (beqb k_tree k_tree)) with false in Hd.
+    destruct (parse_oid th) as [h|] eqn:Ep; [|discriminate]. exists h.
+    unfold parse_oid in Ep. rewrite Hthl in Ep. split; [exact Ep|].
+    unfold l0 in Hd. now rewrite ends_nl_app_lf in Hd. }
+  destruct Hgo as [h [Hh Hrun]].
+  destruct (hex_decode_lower _ _ Hh) as [Hhe _].
+  (* the clauses *)
+  assert (Hhdr : header_of (split_lines raw) = l0 :: header_of ls) by (rewrite Hsl; reflexivity).
+  subst a. rewrite agree_unfold. cbv zeta. rewrite Hhdr. cbn [tl ca_parents ca_position ca_aperson ca_adate ca_cperson ca_cdate ca_encoding].
+  (* the parent block and what follows *)
+  destruct (parents_block _ _ _ _ Hok Habl Hrun) as [rs [c1 (R1 & R2 & R3 & R4 & R5 & R6 & R7)]].
+  assert (Hscan : fst (git_scan_header (split_lines raw) None None) = fst (git_scan_header rs None None)).
+  { rewrite Hsl. change (git_scan_header (l0 :: ls) None None) with (git_scan_header ls None None). now rewrite R7. }
+  rewrite R6.
+  split; [|split; [|split; [|split; [|split]]]].
+  - destruct (crun_keep _ _ _ _ _ Hrun) as (K & _). rewrite K, Gt. exact Hhe.
+  - intros Hpb. rewrite <- Hrl, <- Hcat in Hpb. rewrite <- Hcat in Gp.
+    assert (Hf : (List.length (List.concat ls) <= List.length raw)%nat) by (rewrite Hcat, Hrl; lia).
+    exact (crun_parents_git _ _ _ _ _ _ Hok Habl Hrun Hpb Hf Gp).
+  - intros Hpos Hp Hdt. apply negb_true_iff in Hpos.
+    destruct (author_stage _ _ _ _ R1 R2 R3 Hpos) as [ga [gc [G [PA PC]]]].
+    rewrite Ga, Hscan, G. cbn [fst]. rewrite R4 in PA. exact (person_final _ _ _ PA Hp Hdt).
+  - intros Hpos Hp Hdt. apply negb_true_iff in Hpos.
+    destruct (author_stage _ _ _ _ R1 R2 R3 Hpos) as [ga [gc [G [PA PC]]]].
+    rewrite Gc, Hscan, G. cbn [fst snd]. rewrite R5 in PC. exact (person_final _ _ _ PC Hp Hdt).
+  - intros He. apply negb_true_iff in He. cbn [existsb] in He. apply orb_false_iff in He as [_ He].
+    assert (Hne : SParents <> SMessage) by discriminate.
+    rewrite (crun_enc _ _ _ _ _ Hne Hok Habl Hrun), Ge, Hsl.
+    change (git_find_header k_encoding (l0 :: ls)) with (git_find_header k_encoding ls).
+    rewrite (find_enc _ Hok He). unfold enc_agrees. destruct (first_enc ls); [now left|right; now split].
+  - intros m Hm. exact (message_matches_git _ _ _ _ Hd Hg Hm).
+Qed.
